@@ -79,6 +79,12 @@ def main():
     prop, tier, seed, shard, nshards, out = sys.argv[1:7]
     seed, shard, nshards = int(seed), int(shard), int(nshards)
     faulthandler.enable()
+    try:
+        import resource
+        lim = int(os.environ.get("VERIF_MEM_GB", "6")) << 30
+        resource.setrlimit(resource.RLIMIT_AS, (lim, lim))
+    except Exception:
+        pass
     repo = os.path.abspath(os.environ.get("VERIF_REPO", "/repo"))
     import markdown_it
 
@@ -107,7 +113,7 @@ def main():
 
     if hasattr(signal, "setitimer") and not os.environ.get("VERIF_NO_STALL"):
         signal.signal(signal.SIGALRM, on_tick)
-        tick = getattr(mod, "STALL_S", 120)
+        tick = getattr(mod, "STALL_S", 30 if ctx.tier == "quick" else 120)
         signal.setitimer(signal.ITIMER_REAL, tick, tick)
     try:
         if tier == "replay":
